@@ -92,6 +92,11 @@ pub fn alphabet(g: &Grammar) -> Vec<char> {
     for c in [' ', '\n', '\t', 'a', 'b', 'x', 'é', '☃', '🙂', '\u{A0}'] {
         set.insert(c);
     }
+    // generic trouble makers: BOM, NUL, DEL, first non-ASCII code point, Unicode-only white space, a combining mark, the last
+    // code point
+    for c in ['\u{FEFF}', '\0', '\u{7f}', '\u{80}', '\u{85}', '\u{3000}', '\u{301}', '\u{10FFFF}'] {
+        set.insert(c);
+    }
     set.into_iter().collect()
 }
 
